@@ -18,6 +18,26 @@ structure Schema.Simple (sch : Schema) : Prop where
   keeps : sch.pureDropsOther = false
   wraps : sch.scalarInsertRaw = false
 
+/-- the same requirements, but "one axis" only for the bundle `K` that is being edited (the other bundles may
+    govern two axes: square classes) -/
+structure Schema.SimpleAt (sch : Schema) (K : Kind) : Prop where
+  wf : sch.WF
+  lt : ∀ kk b, b ∈ sch.axes kk → b < 3
+  single : sch.axes K = [] ∨ ∃ a, sch.axes K = [a] ∧ a < 3
+  keeps : sch.pureDropsOther = false
+  wraps : sch.scalarInsertRaw = false
+
+theorem Schema.Simple.at {sch : Schema} (hs : sch.Simple) (K : Kind) : sch.SimpleAt K where
+  wf := hs.wf
+  lt := by
+    intro kk b hb
+    rcases hs.single kk with h0 | ⟨a, ha, ha3⟩
+    · rw [h0] at hb; cases hb
+    · rw [ha] at hb; simp at hb; omega
+  single := hs.single K
+  keeps := hs.keeps
+  wraps := hs.wraps
+
 /-- `concat` is treated separately (Lemmas/LabelMatConcat.lean) -/
 def Op.Safe (sch : Schema) : Op α lab → Prop
   | .concat _ _ => False
@@ -37,50 +57,51 @@ theorem unsupported_of_empty {β : Type} {x : R β} {y : β} : (throw Err.unsupp
   intro h; cases h
 
 /-- **One step keeps labels attached.** -/
-theorem step_attached [BEq lab] (le : lab → lab → Bool) (sch : Schema) (hs : sch.Simple) (fill : α) (fx : Bool)
-    (op : Op α lab) (s s' : St α lab) (hcons : consistentOK sch s = true) (hopnd : OperandsOK sch op s)
+theorem step_attached [BEq lab] (le : lab → lab → Bool) (sch : Schema) (fill : α) (fx : Bool)
+    (op : Op α lab) (hs : sch.SimpleAt op.kind) (s s' : St α lab) (hcons : consistentOK sch s = true) (hopnd : OperandsOK sch op s)
     (hsafe : op.Safe sch) (h : step le sch fill fx op s = .ok s') (c : LCell α lab) (hc : IsLCell sch s' c) :
     IsLCell sch s c ∨ ∃ v ∈ op.operands, IsLCell sch (operandState s op.kind v) c := by
   -- the edited bundle owns exactly one axis (otherwise the operation is rejected)
-  have hax : ∀ k, (sch.axes k = [] → False) → ∃ a, sch.axes k = [a] ∧ a < 3 := by
-    intro k hne
-    rcases hs.single k with h0 | h1
+  have hax : ∀ k, k = op.kind → (sch.axes k = [] → False) → ∃ a, sch.axes k = [a] ∧ a < 3 := by
+    intro k hk hne
+    subst hk
+    rcases hs.single with h0 | h1
     · exact absurd h0 hne
     · exact h1
-  have unary : ∀ k, UnaryForm sch k s s' → (sch.axes k = [] → False) → IsLCell sch s c := by
-    intro k hu hne
-    obtain ⟨a, ha, ha3⟩ := hax k hne
+  have unary : ∀ k, k = op.kind → UnaryForm sch k s s' → (sch.axes k = [] → False) → IsLCell sch s c := by
+    intro k hk hu hne
+    obtain ⟨a, ha, ha3⟩ := hax k hk hne
     exact unaryForm_attached sch hs.wf k a ha ha3 s s' hcons hu c hc
   cases op with
   | select k is =>
     left
-    refine unary k (selectK_form hs.keeps h) ?_
+    refine unary k rfl (selectK_form hs.keeps h) ?_
     intro he; simp [step, selectK, he, bind, Except.bind, throw, throwThe, MonadExceptOf.throw] at h
   | delete k obj =>
     left
-    refine unary k (deleteK_form hs.keeps h) ?_
+    refine unary k rfl (deleteK_form hs.keeps h) ?_
     intro he; simp [step, deleteK, he, bind, Except.bind, throw, throwThe, MonadExceptOf.throw] at h
   | remove k obj =>
     left
-    refine unary k (removeK_form h) ?_
+    refine unary k rfl (removeK_form h) ?_
     intro he; simp [step, removeK, he, bind, Except.bind, throw, throwThe, MonadExceptOf.throw] at h
   | reorder k is =>
     left
     simp only [step] at h
     split at h
-    · refine unary k (reorderK_form h) ?_
+    · refine unary k rfl (reorderK_form h) ?_
       intro he; simp [reorderK, reorderKPre, he, bind, Except.bind, throw, throwThe, MonadExceptOf.throw] at h
-    · refine unary k (reorderKPre_form h) ?_
+    · refine unary k rfl (reorderKPre_form h) ?_
       intro he; simp [reorderKPre, he, bind, Except.bind, throw, throwThe, MonadExceptOf.throw] at h
   | sort k keys =>
     left
-    refine unary k (sortK_form h) ?_
+    refine unary k rfl (sortK_form h) ?_
     intro he
     obtain ⟨ix, hix, _⟩ := sortK_eq h
     simp [lexsortK, he, bind, Except.bind, throw, throwThe, MonadExceptOf.throw] at hix
   | group k =>
     left
-    refine unary k (groupK_form h) ?_
+    refine unary k rfl (groupK_form h) ?_
     intro he
     obtain ⟨c, s1, _, hs1, _⟩ := groupK_eq h
     obtain ⟨ix, hix, _⟩ := sortK_eq hs1
@@ -97,7 +118,7 @@ theorem step_attached [BEq lab] (le : lab → lab → Bool) (sch : Schema) (hs :
     · rename_i t ht
       rw [newObj_eq sch hs.keeps] at h
       have hs' := checkCtor_ok h
-      obtain ⟨a, ha, ha3⟩ := hax k (by intro he; simp [adjoinCore, he, bind, Except.bind, throw, throwThe, MonadExceptOf.throw] at ht)
+      obtain ⟨a, ha, ha3⟩ := hax k rfl (by intro he; simp [adjoinCore, he, bind, Except.bind, throw, throwThe, MonadExceptOf.throw] at ht)
       obtain ⟨hcompat, hb, _, _⟩ := adjoinCore_form ha ht
       have hov := hopnd v (by simp [Op.operands])
       rw [hs', isLCell_congr sch _ t (freshK_mat k t) (fun kk => freshK_cols k kk t) c] at hc
@@ -106,7 +127,7 @@ theorem step_attached [BEq lab] (le : lab → lab → Bool) (sch : Schema) (hs :
       · exact Or.inr ⟨v, by simp [Op.operands], h1⟩
   | append k v =>
     simp only [step, appendK] at h
-    obtain ⟨a, ha, ha3⟩ := hax k (by intro he; simp [adjoinCore, he, bind, Except.bind, throw, throwThe, MonadExceptOf.throw] at h)
+    obtain ⟨a, ha, ha3⟩ := hax k rfl (by intro he; simp [adjoinCore, he, bind, Except.bind, throw, throwThe, MonadExceptOf.throw] at h)
     obtain ⟨hcompat, hb, _, _⟩ := adjoinCore_form ha h
     have hov := hopnd v (by simp [Op.operands])
     rcases binaryForm_attached sch hs.wf k a ha ha3 s v s' hcons hov.1 hcompat hov.2 hb c hc with h1 | h1
@@ -119,7 +140,7 @@ theorem step_attached [BEq lab] (le : lab → lab → Bool) (sch : Schema) (hs :
     · rename_i t ht
       rw [newObj_eq sch hs.keeps] at h
       have hs' := checkCtor_ok h
-      obtain ⟨a, ha, ha3⟩ := hax k (by intro he; simp [insertCore, insertCoreRaw, he, bind, Except.bind, throw, throwThe, MonadExceptOf.throw] at ht)
+      obtain ⟨a, ha, ha3⟩ := hax k rfl (by intro he; simp [insertCore, insertCoreRaw, he, bind, Except.bind, throw, throwThe, MonadExceptOf.throw] at ht)
       have hov := hopnd v (by simp [Op.operands])
       obtain ⟨hcompat, hb, _, _⟩ := insertCore_form hs.wraps ha ha3 ht hcons hov.1
       rw [hs', isLCell_congr sch _ t (freshK_mat k t) (fun kk => freshK_cols k kk t) c] at hc
@@ -128,7 +149,7 @@ theorem step_attached [BEq lab] (le : lab → lab → Bool) (sch : Schema) (hs :
       · exact Or.inr ⟨v, by simp [Op.operands], h1⟩
   | incorp k obj v =>
     simp only [step, incorpK] at h
-    obtain ⟨a, ha, ha3⟩ := hax k (by intro he; simp [insertCore, insertCoreRaw, he, bind, Except.bind, throw, throwThe, MonadExceptOf.throw] at h)
+    obtain ⟨a, ha, ha3⟩ := hax k rfl (by intro he; simp [insertCore, insertCoreRaw, he, bind, Except.bind, throw, throwThe, MonadExceptOf.throw] at h)
     have hov := hopnd v (by simp [Op.operands])
     obtain ⟨hcompat, hb, _, _⟩ := insertCore_form hs.wraps ha ha3 h hcons hov.1
     rcases binaryForm_attached sch hs.wf k a ha ha3 s v s' hcons hov.1 hcompat hov.2 hb c hc with h1 | h1
@@ -180,7 +201,7 @@ theorem run_attached [BEq lab] (le : lab → lab → Bool) (sch : Schema) (hs : 
     · rename_i s1 hs1
       obtain ⟨hcons, hopnd, hsafe, hrest⟩ := hv
       rcases ih s1 (hrest s1 hs1) h with h1 | h1
-      · rcases step_attached le sch hs fill fx op s s1 hcons hopnd hsafe hs1 c h1 with h2 | h2
+      · rcases step_attached le sch fill fx op (hs.at _) s s1 hcons hopnd hsafe hs1 c h1 with h2 | h2
         · exact Or.inl h2
         · exact Or.inr (Or.inl h2)
       · exact Or.inr (Or.inr ⟨s1, hs1, h1⟩)
